@@ -140,7 +140,7 @@ HARNESSES += [
      "defs": {"SIDE_PARENT": None}, "unwind": 10,
      "what": "process_start, parent side, every OS call fallible, process_fork/path_prepend_cwd "
              "replaced by their contracts, strv_concat/strv_free by executable contracts (stubs in the harness): success is a live child that executed the program, failure leaves nothing"},
-    {"name": "process_start_child", "props": ["C10", "C11", "C12", "C03", "C04"], "src": "h_process_start.c",
+    {"name": "process_start_child", "props": ["C10", "C11", "C12", "C03", "C04", "C01", "C08", "C09"], "src": "h_process_start.c",
      "contracts": ["public.h"], "includes": ["process.posix.c", "strv.c"], "enforce": "process_start",
      "replace": ["process_fork", "path_prepend_cwd"],
      "defs": {"SIDE_CHILD": None}, "unwind": 10, "unwindset": ["harness.0:34"], "no_leak_check": True, "must_fail": ["reach/exec", "reach/_exit"],
@@ -190,6 +190,11 @@ def poll_h(n, thorough_only=False):
 
 
 HARNESSES += [poll_h(1), poll_h(2), poll_h(3), poll_h(4, thorough_only=True)]
+# reproc_drain (C16) calls reproc_poll with one source and assumes its whole
+# contract (replaced by hand in h_drain.c): every obligation of reproc_poll_1 is
+# a premise of C16
+HARNESSES[-4]["props"] = HARNESSES[-4]["props"] + ["C16"]
+HARNESSES[-4]["assumed_by"] = ["C16"]
 
 
 HARNESSES += [
@@ -300,7 +305,8 @@ HARNESSES += [
     api("kill", ["C07", "C06", "C14"], "reproc_kill on any handle state"),
     api("pid", ["C14"], "reproc_pid on any handle state"),
     api("close", ["C02", "C14", "C05", "C06"], "reproc_close, any stream value, any handle state"),
-    api("read", ["C02", "C17", "C14", "C05", "C06"], "reproc_read, any stream value, any size with a matching buffer or NULL"),
+    api("read", ["C02", "C17", "C14", "C05", "C06", "C16"], "reproc_read, any stream value, any size with a matching buffer or NULL "
+        "(reproc_drain, C16, assumes this whole contract)", assumed_by=["C16"]),
     api("write", ["C02", "C17", "C14", "C05", "C06"], "reproc_write, any size with a matching buffer or NULL"),
     api("stop", ["C07", "C01", "C14", "C05", "C08", "C15", "C06"],
         "reproc_stop with reproc_wait/terminate/kill inlined down to the OS layer; the three-iteration loop is "
